@@ -38,3 +38,66 @@ Definition Known_C03_deps := Known_by with_deps.     (* dependency modules' bodi
 
 (* the union, including combinations of the above (an unchecked argument inside an elif body...) *)
 Definition Known_C03 (pj : project) : Prop := Known_by fixed pj.
+
+(* ---- a MUTANT walker (seeded change C03-2, not the current code): compound assignment decides
+   mutability by a name-keyed set of every name declared `mut` so far in the checker run
+   (TypeChecker::mutable_bindings, which the current code only writes) instead of the resolved
+   binding.  Such a walker reports exactly the real events minus the "immutable" diagnostics of
+   compound assignments whose target NAME is in the set. *)
+Fixpoint mut_decls_stmt (s : stmt) : list name :=
+  match s with
+  | SAssign _ BMut x _ _ => [x]
+  | SIf _ _ th el els => mut_decls_block th ++ mut_decls_elifs el ++ mut_decls_oblock els
+  | SWhile _ _ b | SFor _ _ _ b => mut_decls_block b
+  | SMatch _ _ _ ar => mut_decls_arms ar
+  | _ => []
+  end
+with mut_decls_block (b : block) : list name :=
+  match b with BNil => [] | BCons s r => mut_decls_stmt s ++ mut_decls_block r end
+with mut_decls_elifs (l : elifs) : list name :=
+  match l with LNil => [] | LCons _ b r => mut_decls_block b ++ mut_decls_elifs r end
+with mut_decls_oblock (o : oblock) : list name :=
+  match o with ONone => [] | OSome b => mut_decls_block b end
+with mut_decls_arms (a : arms) : list name :=
+  match a with MNil => [] | MCons _ _ _ b r => mut_decls_block b ++ mut_decls_arms r end.
+
+Fixpoint compound_sites_stmt (s : stmt) : list (id * name) :=
+  match s with
+  | SCompound i x _ _ => [(i, x)]
+  | SIf _ _ th el els => compound_sites_block th ++ compound_sites_elifs el ++ compound_sites_oblock els
+  | SWhile _ _ b | SFor _ _ _ b => compound_sites_block b
+  | SMatch _ _ _ ar => compound_sites_arms ar
+  | _ => []
+  end
+with compound_sites_block (b : block) : list (id * name) :=
+  match b with BNil => [] | BCons s r => compound_sites_stmt s ++ compound_sites_block r end
+with compound_sites_elifs (l : elifs) : list (id * name) :=
+  match l with LNil => [] | LCons _ b r => compound_sites_block b ++ compound_sites_elifs r end
+with compound_sites_oblock (o : oblock) : list (id * name) :=
+  match o with ONone => [] | OSome b => compound_sites_block b end
+with compound_sites_arms (a : arms) : list (id * name) :=
+  match a with MNil => [] | MCons _ _ _ b r => compound_sites_block b ++ compound_sites_arms r end.
+
+Definition suppressed (MB : list name) (f : fdecl) (e : event) : bool :=
+  match fst e with
+  | KImmutable => existsb (fun s => N.eqb (fst s) (snd e) && mem (snd s) MB) (compound_sites_block (f_body f))
+  | _ => false
+  end.
+
+Definition mutant_check_fn (fx : fixes) (G : genv) (MB : list name) (f : fdecl) : list event :=
+  filter (fun e => negb (suppressed MB f e)) (check_fn fx G f).
+
+(* the set is threaded through the functions in checking order and never cleared *)
+Fixpoint mutant_funs (fx : fixes) (G : genv) (MB : list name) (fs : list fdecl) : list event :=
+  match fs with
+  | [] => []
+  | f :: r =>
+      let MB' := MB ++ mut_decls_block (f_body f) in
+      mutant_check_fn fx G MB' f ++ mutant_funs fx G MB' r
+  end.
+
+Definition mutant_events (fx : fixes) (p : program) : list event :=
+  mutant_funs fx (genv_of [] p) [] (p_funs p).
+
+Definition with_funs (p : program) (fs : list fdecl) : program :=
+  {| p_enums := p_enums p; p_models := p_models p; p_funs := fs |}.
